@@ -1,3 +1,4 @@
 CONSTANTS MaxOps = 4 MaxGroups = 3 MaxRoutes = 2
+RandomPrograms = 300
 INIT GenInit
 NEXT GenNext
